@@ -485,6 +485,14 @@ func (e *specEnv) callExpr(c *ast.CallExpr) Val {
 					return scalar(App("newobj", SBool, v.base()), types.Typ[types.Bool])
 				}
 				e.fail(c, "isNew needs a pointer or slice")
+			case "ifaceIs":
+				// ifaceIs(x, p): interface value x holds exactly the pointer p
+				v := e.expr(c.Args[0])
+				pv := e.expr(c.Args[1])
+				if v.K != VIface || pv.K != VPtr {
+					e.fail(c, "ifaceIs(interface, pointer)")
+				}
+				return scalar(And(Eq(v.Fs[0].T, e.x.typeTag(e.typeOf(c.Args[1]))), Eq(v.Fs[1].T, pv.Ref)), types.Typ[types.Bool])
 			case "isNaN":
 				return scalar(mk("fp.isNaN", SBool, e.expr(c.Args[0]).T), types.Typ[types.Bool])
 			case "isInf":
@@ -532,13 +540,38 @@ func (e *specEnv) callExpr(c *ast.CallExpr) Val {
 // inlineCall evaluates a call to a real (pure, loop-free) package function by symbolic execution of its SSA.
 func (e *specEnv) inlineCall(c *ast.CallExpr, o *types.Func) Val {
 	fn := e.x.P.Prog.FuncValue(o)
+	var args []Val
+	sig := o.Type().(*types.Signature)
+	if fn == nil && sig.Recv() != nil {
+		// method of a sealed interface with a single in-package implementer: dispatch to it
+		if iface, ok := sig.Recv().Type().Underlying().(*types.Interface); ok {
+			impls := e.x.sealedImplementers(iface)
+			sel, isSel := c.Fun.(*ast.SelectorExpr)
+			if len(impls) == 1 && isSel {
+				ms := e.x.P.Prog.MethodSets.MethodSet(impls[0])
+				if s := ms.Lookup(e.x.P.Pkg.Types, o.Name()); s != nil {
+					if f := e.x.P.Prog.MethodValue(s); f != nil && len(f.Blocks) > 0 {
+						rv := e.expr(sel.X)
+						if rv.K != VIface {
+							e.fail(c, "interface method on non-interface value")
+						}
+						e.x.assumed["closed world for interface "+typeName(sig.Recv().Type())+": only in-package pointer types implement it (unexported methods)"] = true
+						pt := impls[0].(*types.Pointer)
+						fn = f
+						args = append(args, Val{K: VPtr, Prefix: canonPrefix(pt.Elem()), Ref: rv.Fs[1].T, Ty: impls[0]})
+						sig = nil
+					}
+				}
+			}
+		}
+	}
 	if fn == nil {
 		// generic or interface method
 		e.fail(c, "no SSA for %s", o.FullName())
 	}
-	var args []Val
-	sig := o.Type().(*types.Signature)
-	if sig.Recv() != nil {
+	if sig == nil {
+		sig = fn.Signature
+	} else if sig.Recv() != nil {
 		sel, ok := c.Fun.(*ast.SelectorExpr)
 		if !ok {
 			e.fail(c, "method call without selector")
